@@ -1,5 +1,609 @@
-"""Symbolic strings of concrete length (placeholder; see below)."""
+"""Symbolic strings of concrete length.
+
+A SymStr is a tuple of elements; each element is
+  * a concrete 1-character ``str``,
+  * a z3 Int term (an ASCII code point constrained by the harness to some alphabet), or
+  * an ``Atom``: an opaque, non-empty numeral token (characters from ``0-9 . + -`` and inner ``e/E``)
+    that ``float()`` turns into the atom's symbolic real value (or ValueError when the atom is
+    flagged invalid).  It contains no whitespace, comma or unit letter at its ends.
+
+Methods fork the path (through SymBool.__bool__) only where the *shape* of the result depends on
+symbolic characters.  The universe is ASCII; whitespace is str.isspace restricted to ASCII."""
+import z3
+
+from . import engine
+from .values import SymBool, SymInt, SymQ, SymReal, mkbool
+
+WS = (9, 10, 11, 12, 13, 28, 29, 30, 31, 32)       # str.isspace() within ASCII
+BYTES_WS = (9, 10, 11, 12, 13, 32)                 # bytes.strip() default
+
+
+class Atom:
+    """Opaque numeral token."""
+    __slots__ = ("name", "value", "valid")
+
+    def __init__(self, name, value, valid=True):
+        self.name = name
+        self.value = value
+        self.valid = valid
+
+    def __repr__(self):
+        return "<atom %s>" % self.name
+
+
+def _is_term(e):
+    return isinstance(e, z3.ExprRef)
+
+
+def ch_eq(a, b):
+    """Boolean (Python bool or z3 BoolRef): elements a and b are the same character."""
+    if isinstance(a, Atom) or isinstance(b, Atom):
+        return a is b
+    if isinstance(a, str) and isinstance(b, str):
+        return a == b
+    ta = a if _is_term(a) else z3.IntVal(ord(a))
+    tb = b if _is_term(b) else z3.IntVal(ord(b))
+    return ta == tb
+
+
+def ch_in(e, codes):
+    if isinstance(e, Atom):
+        return False
+    if isinstance(e, str):
+        return ord(e) in codes
+    return z3.Or([e == c for c in codes])
+
+
+def ch_lower(e):
+    if isinstance(e, Atom):
+        return e
+    if isinstance(e, str):
+        return e.lower()
+    return z3.If(z3.And(e >= 65, e <= 90), e + 32, e)
+
+
+def ch_upper(e):
+    if isinstance(e, Atom):
+        return e
+    if isinstance(e, str):
+        return e.upper()
+    return z3.If(z3.And(e >= 97, e <= 122), e - 32, e)
+
+
+def zand(parts):
+    parts = list(parts)
+    if any(p is False for p in parts):
+        return False
+    parts = [p for p in parts if p is not True]
+    if not parts:
+        return True
+    return z3.And(parts) if len(parts) > 1 else parts[0]
+
+
+def zor(parts):
+    parts = list(parts)
+    if any(p is True for p in parts):
+        return True
+    parts = [p for p in parts if p is not False]
+    if not parts:
+        return False
+    return z3.Or(parts) if len(parts) > 1 else parts[0]
+
+
+def decide(b):
+    """Fork on a Python bool / z3 BoolRef."""
+    if isinstance(b, bool):
+        return b
+    return engine.cur().branch(b)
+
+
+def elems(x):
+    if isinstance(x, SymStr):
+        return x.e
+    if isinstance(x, str):
+        from .tokens import has_token
+        if has_token(x):
+            return from_token_str(x).e
+        return tuple(x)
+    raise TypeError("expected str, got %s" % type(x).__name__)
+
+
+def from_token_str(s):
+    """A real str that carries string tokens -> SymStr (number tokens stay opaque pieces)."""
+    from .tokens import split_tokens
+    out = []
+    for piece in split_tokens(s):
+        if isinstance(piece, str):
+            out.extend(piece)
+        else:
+            value, spec = piece
+            if isinstance(value, SymStr) and spec == "":
+                out.extend(value.e)
+            else:
+                out.append(NumTok(value, spec))
+    return SymStr(out)
+
+
+class NumTok(Atom):
+    """A formatted symbolic number embedded in text (rendering unknown: behaves like an Atom)."""
+    __slots__ = ("num", "spec")
+
+    def __init__(self, num, spec):
+        Atom.__init__(self, "num", num, True)
+        self.num = num
+        self.spec = spec
+
+
+def strlike(x):
+    return isinstance(x, (str, SymStr))
 
 
 class SymStr:
-    pass
+    __slots__ = ("e",)
+
+    def __init__(self, elements):
+        self.e = tuple(elements)
+
+    # -- construction helpers --------------------------------------------------------------------
+    @staticmethod
+    def lit(s):
+        return SymStr(tuple(s))
+
+    def is_concrete(self):
+        return all(isinstance(c, str) for c in self.e)
+
+    def concrete_str(self):
+        return "".join(self.e)
+
+    def concretize(self):
+        """Fork until every character is concrete; returns a real str (atoms are not allowed)."""
+        r = engine.cur()
+        out = []
+        for c in self.e:
+            if isinstance(c, Atom):
+                raise NotImplementedError("concretize string with numeral atom")
+            out.append(c if isinstance(c, str) else chr(r.concretize(c)))
+        return "".join(out)
+
+    def simp(self):
+        """Replace character terms that simplify to constants by concrete characters."""
+        out = []
+        for c in self.e:
+            if _is_term(c):
+                s = z3.simplify(c)
+                if z3.is_int_value(s):
+                    c = chr(s.as_long())
+            out.append(c)
+        return SymStr(out)
+
+    # -- basic protocol --------------------------------------------------------------------------
+    def __len__(self):
+        return len(self.e)
+
+    def length(self):
+        return len(self.e)
+
+    def __bool__(self):
+        return len(self.e) > 0
+
+    def __iter__(self):
+        for c in self.e:
+            yield c if isinstance(c, str) else SymStr((c,))
+
+    def __repr__(self):
+        return "SymStr(%s)" % "".join(c if isinstance(c, str) else ("<%s>" % (c,)) for c in self.e)
+
+    def __str__(self):
+        return self.__format__("")
+
+    def __format__(self, spec):
+        if self.is_concrete():
+            return format(self.concrete_str(), spec)
+        from .tokens import make_token
+        return make_token(self, spec)
+
+    def __hash__(self):
+        return hash(self.concretize())
+
+    def __getitem__(self, k):
+        if isinstance(k, slice):
+            return SymStr(self.e[k])._norm()
+        if isinstance(k, (SymInt,)):
+            k = k.__index__()
+        c = self.e[k]
+        return c if isinstance(c, str) else SymStr((c,))
+
+    def _norm(self):
+        return self
+
+    def __add__(self, o):
+        if not strlike(o):
+            return NotImplemented
+        return SymStr(self.e + elems(o))
+
+    def __radd__(self, o):
+        if not strlike(o):
+            return NotImplemented
+        return SymStr(elems(o) + self.e)
+
+    def __mul__(self, n):
+        return SymStr(self.e * n)
+
+    # -- comparisons -----------------------------------------------------------------------------
+    def eq_term(self, o):
+        oe = elems(o)
+        if len(oe) != len(self.e):
+            return False
+        return zand(ch_eq(a, b) for a, b in zip(self.e, oe))
+
+    def __eq__(self, o):
+        if not strlike(o):
+            return False
+        return mkbool(self.eq_term(o))
+
+    def __ne__(self, o):
+        if not strlike(o):
+            return True
+        t = self.eq_term(o)
+        return (not t) if isinstance(t, bool) else mkbool(z3.Not(t))
+
+    def _lex(self, o, strict):
+        """self < o (strict) or self <= o, lexicographic by code point."""
+        a, b = self.e, elems(o)
+        if any(isinstance(c, Atom) for c in a + b):
+            raise NotImplementedError("ordering of strings with numeral atoms")
+
+        def t(c):
+            return c if _is_term(c) else z3.IntVal(ord(c))
+        n = min(len(a), len(b))
+        res = (len(a) < len(b)) if strict else (len(a) <= len(b))
+        res = z3.BoolVal(res)
+        for i in reversed(range(n)):
+            res = z3.If(t(a[i]) < t(b[i]), True, z3.If(t(a[i]) > t(b[i]), False, res))
+        return mkbool(res)
+
+    def __lt__(self, o):
+        return self._lex(o, True)
+
+    def __le__(self, o):
+        return self._lex(o, False)
+
+    def __gt__(self, o):
+        return SymStr(elems(o))._lex(self, True)
+
+    def __ge__(self, o):
+        return SymStr(elems(o))._lex(self, False)
+
+    # -- searching -------------------------------------------------------------------------------
+    def _match_at(self, sub, i):
+        if i < 0 or i + len(sub) > len(self.e):
+            return False
+        return zand(ch_eq(self.e[i + j], sub[j]) for j in range(len(sub)))
+
+    def startswith(self, prefix, start=0):
+        if isinstance(prefix, tuple):
+            return mkbool(zor(self._match_at(elems(p), start) for p in prefix))
+        return mkbool(self._match_at(elems(prefix), start))
+
+    def endswith(self, suffix):
+        s = elems(suffix)
+        return mkbool(self._match_at(s, len(self.e) - len(s)))
+
+    def __contains__(self, sub):
+        if not strlike(sub):
+            raise TypeError("'in <string>' requires string as left operand, not %s" % type(sub).__name__)
+        s = elems(sub)
+        if not s:
+            return True
+        t = zor(self._match_at(s, i) for i in range(len(self.e) - len(s) + 1))
+        return decide(t)
+
+    def contains_term(self, sub):
+        s = elems(sub)
+        if not s:
+            return True
+        return zor(self._match_at(s, i) for i in range(len(self.e) - len(s) + 1))
+
+    def find(self, sub, start=0, end=None):
+        s = elems(sub)
+        n = len(self.e) if end is None else min(end, len(self.e))
+        if isinstance(start, SymInt):
+            start = start.__index__()
+        if start < 0:
+            start = max(0, len(self.e) + start)
+        for i in range(start, n - len(s) + 1):
+            if decide(self._match_at(s, i)):
+                return i
+        return -1
+
+    def index(self, sub, start=0):
+        i = self.find(sub, start)
+        if i < 0:
+            raise ValueError("substring not found")
+        return i
+
+    def count(self, sub):
+        s = elems(sub)
+        i, n = 0, 0
+        while True:
+            i = self.find(SymStr(s), i)
+            if i < 0:
+                return n
+            n += 1
+            i += max(1, len(s))
+
+    # -- whitespace ------------------------------------------------------------------------------
+    def _strip_pred(self, chars, ws=WS):
+        if chars is None:
+            return lambda c: ch_in(c, ws)
+        ce = elems(chars)
+        return lambda c: zor(ch_eq(c, x) for x in ce)
+
+    def lstrip(self, chars=None, _ws=WS):
+        p = self._strip_pred(chars, _ws)
+        i = 0
+        while i < len(self.e) and decide(p(self.e[i])):
+            i += 1
+        return SymStr(self.e[i:])
+
+    def rstrip(self, chars=None, _ws=WS):
+        p = self._strip_pred(chars, _ws)
+        j = len(self.e)
+        while j > 0 and decide(p(self.e[j - 1])):
+            j -= 1
+        return SymStr(self.e[:j])
+
+    def strip(self, chars=None, _ws=WS):
+        return self.lstrip(chars, _ws).rstrip(chars, _ws)
+
+    def isspace(self):
+        if not self.e:
+            return False
+        return mkbool(zand(ch_in(c, WS) for c in self.e))
+
+    def isdigit(self):
+        if not self.e:
+            return False
+        return mkbool(zand(ch_in(c, range(48, 58)) for c in self.e))
+
+    def lower(self):
+        return SymStr(ch_lower(c) for c in self.e).simp()
+
+    def upper(self):
+        return SymStr(ch_upper(c) for c in self.e).simp()
+
+    # -- splitting / replacing -------------------------------------------------------------------
+    def split(self, sep=None, maxsplit=-1):
+        if sep is None:
+            out, cur = [], []
+            i, n = 0, len(self.e)
+            while i < n:
+                c = self.e[i]
+                if decide(ch_in(c, WS)):
+                    if cur:
+                        out.append(SymStr(cur))
+                        cur = []
+                        if maxsplit >= 0 and len(out) >= maxsplit:
+                            rest = SymStr(self.e[i:]).lstrip()
+                            if len(rest):
+                                out.append(rest)
+                            return out
+                else:
+                    cur.append(c)
+                i += 1
+            if cur:
+                out.append(SymStr(cur))
+            return out
+        s = elems(sep)
+        if not s:
+            raise ValueError("empty separator")
+        out, start, i = [], 0, 0
+        n = len(self.e)
+        while i <= n - len(s):
+            if maxsplit >= 0 and len(out) >= maxsplit:
+                break
+            if decide(self._match_at(s, i)):
+                out.append(SymStr(self.e[start:i]))
+                i += len(s)
+                start = i
+            else:
+                i += 1
+        out.append(SymStr(self.e[start:]))
+        return out
+
+    def replace(self, old, new, count=-1):
+        o, nw = elems(old), elems(new)
+        if not o:
+            raise NotImplementedError("replace of empty string")
+        if len(o) == 1 and len(nw) == 1 and count < 0 and not isinstance(o[0], Atom):
+            # character-wise: no fork needed
+            out = []
+            for c in self.e:
+                if isinstance(c, Atom):
+                    out.append(c)
+                    continue
+                t = ch_eq(c, o[0])
+                if t is True:
+                    out.append(nw[0])
+                elif t is False:
+                    out.append(c)
+                else:
+                    cn = nw[0] if _is_term(nw[0]) else z3.IntVal(ord(nw[0]))
+                    cc = c if _is_term(c) else z3.IntVal(ord(c))
+                    out.append(z3.If(t, cn, cc))
+            return SymStr(out).simp()
+        out, i, n, done = [], 0, len(self.e), 0
+        while i < n:
+            if (count < 0 or done < count) and decide(self._match_at(o, i)):
+                out.extend(nw)
+                i += len(o)
+                done += 1
+            else:
+                out.append(self.e[i])
+                i += 1
+        return SymStr(out)
+
+    def join(self, parts):
+        out = []
+        for k, p in enumerate(parts):
+            if k:
+                out.extend(self.e)
+            out.extend(elems(p))
+        return SymStr(out)
+
+    # -- encoding --------------------------------------------------------------------------------
+    def encode(self, encoding="utf-8", errors="strict"):
+        # ASCII universe: every character < 128 (constraint of the harness alphabets)
+        return SymBytes(self)
+
+    # -- numbers ---------------------------------------------------------------------------------
+    def to_int(self, base=10):
+        s = self.strip()
+        e = s.e
+        if any(isinstance(c, Atom) for c in e):
+            if len(e) == 1 and isinstance(e[0], NumTok) and isinstance(e[0].num, SymInt) and e[0].spec in ("", "d") and base == 10:
+                return e[0].num
+            raise ValueError("invalid literal for int()")
+        sign = 1
+        if e and decide(ch_in(e[0], (43, 45))):
+            if decide(ch_eq(e[0], "-")):
+                sign = -1
+            e = e[1:]
+        if not e:
+            raise ValueError("invalid literal for int() with base %d" % base)
+        total = z3.IntVal(0)
+        allconc = True
+        cval = 0
+        for c in e:
+            if isinstance(c, str):
+                try:
+                    d = int(c, base)
+                except ValueError:
+                    raise ValueError("invalid literal for int() with base %d" % base)
+                total = total * base + d
+                cval = cval * base + d
+                continue
+            allconc = False
+            digit_ok = [z3.And(c >= 48, c <= min(57, 47 + base))]
+            val = c - 48
+            if base > 10:
+                digit_ok.append(z3.And(c >= 97, c <= 96 + base - 10))
+                digit_ok.append(z3.And(c >= 65, c <= 64 + base - 10))
+                val = z3.If(c >= 97, c - 87, z3.If(c >= 65, c - 55, c - 48))
+            if not decide(z3.Or(digit_ok)):
+                raise ValueError("invalid literal for int() with base %d" % base)
+            total = total * base + val
+        if allconc:
+            return sign * cval
+        return SymInt(total * sign, bound=base ** len(e))
+
+    def to_float(self):
+        """Model of float(str) for short ASCII strings: [ws] [sign] digits [. digits] | . digits [ws]
+        (exponents, inf/nan and '_' are outside the alphabets used by the harnesses)."""
+        s = self.strip()
+        e = list(s.e)
+        if len(e) == 1 and isinstance(e[0], Atom):
+            a = e[0]
+            if isinstance(a, NumTok):
+                return a.num if not isinstance(a.num, SymStr) else a.num.to_float()
+            if not decide(a.valid if isinstance(a.valid, bool) else a.valid.t if isinstance(a.valid, SymBool) else a.valid):
+                raise ValueError("could not convert string to float")
+            return a.value
+        if any(isinstance(c, Atom) for c in e):
+            raise ValueError("could not convert string to float")
+        neg = False
+        if e and decide(ch_in(e[0], (43, 45))):
+            neg = decide(ch_eq(e[0], "-"))
+            e = e[1:]
+        # split at the first '.'
+        dot = None
+        for i, c in enumerate(e):
+            if decide(ch_eq(c, ".")):
+                dot = i
+                break
+        ip = e if dot is None else e[:dot]
+        fp = [] if dot is None else e[dot + 1:]
+        if not ip and not fp:
+            raise ValueError("could not convert string to float")
+        num = z3.IntVal(0)
+        for c in ip + fp:
+            if not decide(ch_in(c, range(48, 58))):
+                raise ValueError("could not convert string to float")
+            num = num * 10 + ((c - 48) if _is_term(c) else (ord(c) - 48))
+        den = 10 ** len(fp)
+        if neg:
+            num = -num
+        return SymReal(z3.ToReal(num) / den)
+
+
+class SymBytes:
+    """bytes counterpart of SymStr (ASCII): what port.write receives and port.readline returns."""
+    __slots__ = ("s",)
+
+    def __init__(self, s):
+        self.s = s if isinstance(s, SymStr) else SymStr(tuple(s))
+
+    def decode(self, encoding="utf-8", errors="strict"):
+        return self.s
+
+    def __len__(self):
+        return len(self.s)
+
+    def __bool__(self):
+        return len(self.s) > 0
+
+    def __repr__(self):
+        return "SymBytes(%r)" % (self.s,)
+
+    def _other(self, o):
+        if isinstance(o, SymBytes):
+            return o.s
+        if isinstance(o, (bytes, bytearray)):
+            return SymStr(tuple(o.decode("latin-1")))
+        raise TypeError("a bytes-like object is required, not '%s'" % type(o).__name__)
+
+    def startswith(self, p):
+        return self.s.startswith(self._other(p))
+
+    def endswith(self, p):
+        return self.s.endswith(self._other(p))
+
+    def __contains__(self, o):
+        if isinstance(o, (str, SymStr)):
+            raise TypeError("a bytes-like object is required, not 'str'")
+        if isinstance(o, int):
+            return decide(zor(ch_eq(c, chr(o)) for c in self.s.e))
+        return self._other(o) in self.s if False else self.s.__contains__(self._other(o))
+
+    def strip(self, chars=None):
+        if chars is not None:
+            return SymBytes(self.s.strip(self._other(chars)))
+        return SymBytes(self.s.strip(None, BYTES_WS))
+
+    def __eq__(self, o):
+        if isinstance(o, (SymBytes, bytes, bytearray)):
+            return self.s == self._other(o)
+        return False
+
+    def __ne__(self, o):
+        if isinstance(o, (SymBytes, bytes, bytearray)):
+            return self.s != self._other(o)
+        return True
+
+    def __hash__(self):
+        return hash(self.s.concretize().encode("latin-1"))
+
+    def __add__(self, o):
+        return SymBytes(self.s + self._other(o))
+
+    def __radd__(self, o):
+        return SymBytes(self._other(o) + self.s)
+
+    def __getitem__(self, k):
+        if isinstance(k, slice):
+            return SymBytes(self.s[k])
+        c = self.s.e[k]
+        return ord(c) if isinstance(c, str) else SymInt(c, bound=255)
+
+    def split(self, sep=None, maxsplit=-1):
+        return [SymBytes(p) for p in self.s.split(None if sep is None else self._other(sep), maxsplit)]
